@@ -1098,6 +1098,11 @@ func LongRules(r *rand.Rand) *spec.Grammar {
 // optionally followed by a small body nonterminal and a terminator. The
 // grammars are LALR(1) by construction (the reference still checks).
 func Huge(r *rand.Rand) *spec.Grammar {
+	return HugeN(r, 256+r.Intn(80))
+}
+
+// HugeN is Huge with n productions (about 2.5 states per production).
+func HugeN(r *rand.Rand, n int) *spec.Grammar {
 	g := &spec.Grammar{}
 	nT := 20 + r.Intn(31)
 	for i := 0; i < nT; i++ {
@@ -1116,7 +1121,6 @@ func Huge(r *rand.Rand) *spec.Grammar {
 	add(2, N(2), T(1))
 	add(3, T(2), N(3))
 	add(3, T(3))
-	n := 256 + r.Intn(80)
 	seen := map[[3]int]bool{}
 	for len(g.Rules) < n {
 		k := [3]int{4 + r.Intn(nT-4), 4 + r.Intn(nT-4), -1}
